@@ -1,6 +1,5 @@
 import VlsModel.Model.Wallet
 import VlsModel.Drv.Common
-import VlsModel.Drv.Onchain
 /-
 Line-protocol driver for the wallet decision logic (`impl Wallet for Node`, properties C08 / C09).  Stateless.
 
@@ -10,12 +9,20 @@ Line-protocol driver for the wallet decision logic (`impl Wallet for Node`, prop
   path    `-` (empty) or components joined by `.`, a trailing `h` marks a hardened component (`0.5h.2`)
   script  descriptor of the harness: `W/<path>/<type>` a key of the node's account at <path>,
           `X<j>/<path>/<type>` a child of the foreign extended key j,
-          `F/<n>/<type>` a foreign key, `R/<len>` a raw script;  type w p2wpkh | s p2sh-p2wpkh | t p2tr | k p2pkh | h p2wsh
+          `F/<n>/<type>` a foreign key, `R/<len>` a raw script, `C<k>` / `C<k>m` a channel funding script (raw for the wallet);  type w p2wpkh | s p2sh-p2wpkh | t p2tr | k p2pkh | h p2wsh
   allow   script descriptors and `x<j>` (an allowlisted extended key; `x9` = the node's own account xpub)
 -/
 namespace VlsModel.Drv.Wallet
 open VlsModel VlsModel.Wallet VlsModel.Drv
-open VlsModel.Drv.Onchain (splitList mapM?)
+
+def splitList (s : String) (sep : String) : List String :=
+  if s == "-" then [] else s.splitOn sep
+
+def mapM? {α β} (f : α → Option β) : List α → Option (List β)
+  | [] => some []
+  | a :: as => match f a, mapM? f as with
+    | some b, some bs => some (b :: bs)
+    | _, _ => none
 
 def comp? (s : String) : Option Nat :=
   match s.toList.reverse with
@@ -41,6 +48,14 @@ def script? (s : String) : Option Script :=
     | some n, some k => some (.addr k (.foreign n))
     | _, _ => none
   | ["R", n] => n.toNat?.map .other
+  | [c] =>
+    -- `C<k>` / `C<k>m`: the funding script of channel k (resp. a mutation of it): raw scripts for the wallet
+    match c.toList with
+    | 'C' :: rest =>
+      match rest.reverse with
+      | 'm' :: r => (String.ofList r.reverse).toNat?.map (fun k => .other (2000000 + k))
+      | _ => (String.ofList rest).toNat?.map (fun k => .other (1000000 + k))
+    | _ => none
   | [x, p, t] =>
     match x.toList with
     | 'X' :: j => match (String.ofList j).toNat?, path? p, kind? t with
